@@ -284,6 +284,9 @@ def plan_add(w: World, op: dict) -> Plan:
         trigger += "/data"
         owner = "C04"
 
+    if typed and kind is not None and not isinstance(kind, str) and not sibling_api and "tree" not in src:
+        reasons.append("invalid-kind")
+
     # ---- uniqueness (C03)
     sib_dids = mt.child_dids(P)
     collide = any(t.did in sib_dids for t in new_tops)
@@ -831,8 +834,6 @@ def plan_meta(w: World, op: dict) -> Plan:
 
     elif fn == "update":
         values = dict(op["values"])
-        if not values:
-            return Plan(EXCLUDED, why="empty update")
         replace = bool(op.get("replace", False))
         shared = op.get("shared")
 
@@ -867,7 +868,10 @@ def plan_meta(w: World, op: dict) -> Plan:
 
     else:
         raise KeyError(fn)
-    return Plan(OK, call=call, apply=apply, trigger="meta/" + fn, slots=(si,))
+    trigger = "meta/" + fn
+    if fn == "update" and not values:
+        trigger += "/empty"
+    return Plan(OK, call=call, apply=apply, trigger=trigger, slots=(si,))
 
 
 # ------------------------------------------------------------------------------
